@@ -233,8 +233,15 @@ class C01(EvalProp):
                             hit = [x for kk, x in v[1] if kk == kb]
                             nxt += hit[-1:]
                     cur = nxt
+            nodollar = spec[0][0] != 4 and r.random() < 0.25
+            if nodollar:
+                # C18_dollar_optional: the same path without its leading $ (a first dot name loses its dot, .* becomes *)
+                text = text[1:]
+                if text.startswith('.'):
+                    text = text[1:]
             c = Case('ch%d' % i, text.encode('utf-8'), [doc], meta={'nsteps': len(spec), 'family': 'coq-chain-path'})
             c.keyc = spec
+            c.nodollar = nodollar
             want[c.id] = 'ok:[' + ','.join(core.doc_render(v) for v in cur) + ']' if cur else 'fail'
             cases.append(c)
         go, mo = both_sides(cases)
